@@ -170,6 +170,45 @@ def import_rewrite(i: int, gen: int, extra: bool) -> bool:
     return True
 
 
+def _reps():
+    out = []
+    for mod in sorted(AbstractCodeGen.convertImportv2):
+        syms = sorted(AbstractCodeGen.convertImportv2[mod])
+        out.append((mod, syms[0]))
+        out.append((mod, syms[len(syms) // 2]))
+    return out
+
+
+REPS = _reps()
+
+
+def import_rewrite_pair(i: int, j: int, gen: int, swap: bool) -> bool:
+    """
+    requires: 0 <= i < len(FLAT) and 0 <= j < len(REPS) and 0 <= gen <= 2
+    """
+    # TWO convertible symbols (possibly from two SMIv1 base modules, one of which may be the SMIv2-era home of the other)
+    # imported by the same module: each ends up imported from ITS mapped home
+    p1, p2 = pick(FLAT, i), pick(REPS, j)
+    if p1 == p2:
+        return True
+    pairs = [p2, p1] if swap else [p1, p2]
+    imports = {}
+    for mod, sym in pairs:
+        imports.setdefault(mod, []).append(sym)
+    g = (_symtable.SymtableCodeGen, _intermediate.IntermediateCodeGen, _pysnmp.PySnmpCodeGen)[gen]()
+    out, mods = g.genImports(imports)
+    imap = g._importMap
+    for mod, sym in pairs:
+        for newmod, newsym in AbstractCodeGen.convertImportv2[mod][sym]:
+            names = _symtable.SymtableCodeGen.symsTable.get(newsym, (newsym,)) if gen == 0 else (newsym,)
+            for nme in names:
+                if imap.get(nme.replace('-', '_')) != newmod:
+                    return False
+            if gen != 0 and newsym not in out['imports'].get(newmod, []):
+                return False
+    return True
+
+
 def reserved_alias(dialect: int) -> bool:
     """
     requires: 0 <= dialect <= 2
@@ -198,6 +237,11 @@ def conditions(prop, tier):
         out.append(dict(name='C16.import-rewrite.gen%d' % gen, fn='import_rewrite', fixed=dict(gen=gen), timeout=t,
                         bounds='(module, symbol) picked by symbolic index over ALL %d entries of convertImportv2; generator %d of '
                                '(symtable, intermediate, pysnmp); with/without unrelated imports' % (len(FLAT), gen)))
+    for gen in (0, 1, 2):
+        out.append(dict(name='C16.import-rewrite-pair.gen%d' % gen, fn='import_rewrite_pair', fixed=dict(gen=gen), timeout=t,
+                        extra_pre=['i % 3 == 0'] if q else [],
+                        bounds='two convertible symbols in one IMPORTS: one by symbolic index over all %d entries of convertImportv2, the other over '
+                               '%d representatives (two per SMIv1 base module); both clause orders' % (len(FLAT), len(REPS))))
     out.append(dict(name='C16.reserved-alias', fn='reserved_alias', fixed={}, timeout=t, bounds='reserved-word tables of the three shipped dialects'))
     return out
 
@@ -205,7 +249,7 @@ def conditions(prop, tier):
 def selftests(prop):
     return [('transliteration', dict(ti=0, ai=0, nvars=2, trap_no=2, a1=1, hy=False, trap_first=False, backend=1)),
             ('transliteration', dict(ti=3, ai=1, nvars=0, trap_no=0, a1=0, hy=True, trap_first=True, backend=0)),
-            ('import_rewrite', dict(i=0, gen=1, extra=True)),
+            ('import_rewrite', dict(i=0, gen=1, extra=True)), ('import_rewrite_pair', dict(i=40, j=3, gen=1, swap=True)),
             ('reserved_alias', dict(dialect=0)), ('reserved_alias', dict(dialect=1)), ('reserved_alias', dict(dialect=2))]
 
 
